@@ -73,9 +73,15 @@ EXEMPT = [
      'POP:not_special_connectivity|adds only terminal hydrogens: the ring set is unchanged; not_special_connectivity is popped explicitly'),
     ('Salts.remove_metals', None, {'KEEP'}, None, None,
      'POP:not_special_connectivity|removes only isolated atoms: the ring set is unchanged; not_special_connectivity is popped explicitly'),
+    ('Thiele.thiele', None, {'HYDRO'}, {'ORDER'}, '_order = 1',
+     'GUARD:seen.issuperset(ring)|four-membered all-sp2 rings are reset to single bonds only when every atom of the ring belongs to the aromatic system being '
+     'written (biphenylene-like cores); there the ring bonds were part of the alternation and the hydrogen counts of the Kekule form stay valid. Outside '
+     'that guard the write removes real double bonds (squarates, cyclobutadienes) and the counts become wrong'),
     ('Thiele.thiele', None, {'HYDRO'}, {'ORDER'}, None,
      'aromatisation keeps the Kekule hydrogen counts by design; the tautomer fix sets both counts explicitly'),
-    ('Standardize.canonicalize', None, {'HYDRO'}, {'ORDER'}, None, 'restoring saved Kekule orders keeps hydrogen counts'),
+    ('Standardize.canonicalize', None, {'HYDRO'}, {'ORDER'}, None,
+     'ELSE-OF:standardize_charges|restoring the saved Kekule orders keeps the hydrogen counts computed for that Kekule form -- valid only while no ring charge was moved in '
+     'between: the restoring writes sit in the else-branch of a test that is true whenever standardize_charges() reported a change (otherwise kekule() recomputes)'),
 ]
 # ORDER writes whose new value is a Kekule/aromatic order by construction (never the coordinate order 8)
 IS8_FREE = {
@@ -97,6 +103,53 @@ def pops_key(repo, fq, key):
             return True
         if isinstance(n, ast.Delete) and any(ast.unparse(t) == f"self.__dict__['{key}']" for t in n.targets):
             return True
+    return False
+
+
+def _inside_guard(repo, origin, guard_src):
+    """the statement at origin lies in the body of an `if` whose test is equivalent (normalised DNF) to guard_src"""
+    from .r_query import dnf, simplify
+    f = repo.func(origin[0])
+    if f is None:
+        return False
+    want = simplify(dnf(ast.parse(guard_src, mode='eval').body))
+    parents = {}
+    for p_ in ast.walk(f.node):
+        for ch in ast.iter_child_nodes(p_):
+            parents[ch] = p_
+    for st in ast.walk(f.node):
+        if isinstance(st, ast.stmt) and getattr(st, 'lineno', None) == origin[1] and ' '.join(ast.unparse(st).split())[:120] == origin[2]:
+            child, p_ = st, parents.get(st)
+            while p_ is not None and p_ is not f.node:
+                if isinstance(p_, ast.If) and any(child is x for x in p_.body) and want <= simplify(dnf(p_.test)) and len(simplify(dnf(p_.test))) == len(want):
+                    return True
+                child, p_ = p_, parents.get(p_)
+    return False
+
+
+def _else_of_witness(repo, origin, callname):
+    """the statement at origin (fq, line, text) lies in the else-branch of an `if` whose test is true whenever the variable bound to self.<callname>(...) is truthy"""
+    from .r_query import dnf, simplify
+    f = repo.func(origin[0])
+    if f is None:
+        return False
+    wit = {a.targets[0].id for a in ast.walk(f.node) if isinstance(a, ast.Assign) and len(a.targets) == 1 and isinstance(a.targets[0], ast.Name) and
+           isinstance(a.value, ast.Call) and isinstance(a.value.func, ast.Attribute) and a.value.func.attr == callname}
+    if not wit:
+        return False
+    parents = {}
+    for p_ in ast.walk(f.node):
+        for ch in ast.iter_child_nodes(p_):
+            parents[ch] = p_
+    for st in ast.walk(f.node):
+        if isinstance(st, ast.stmt) and getattr(st, 'lineno', None) == origin[1] and ' '.join(ast.unparse(st).split())[:120] == origin[2]:
+            child, p_ = st, parents.get(st)
+            while p_ is not None and p_ is not f.node:
+                if isinstance(p_, ast.If) and any(child is x for x in p_.orelse):
+                    cl = simplify(dnf(p_.test))
+                    if any(c == frozenset([(('truthy', w), True)]) for c in cl for w in wit):
+                        return True
+                child, p_ = p_, parents.get(p_)
     return False
 
 
@@ -126,6 +179,14 @@ def exempt(entry_q, o, repo=None, keep_flags=None):
             continue
         if sub is not None and sub not in origin[2]:
             continue
+        if reason.startswith('GUARD:'):
+            g_, _, reason = reason[6:].partition('|')
+            if repo is None or not _inside_guard(repo, origin, g_):
+                return None  # this row names the only circumstances under which the write is harmless: no other row may exempt it
+        if reason.startswith('ELSE-OF:'):
+            call_, _, reason = reason[8:].partition('|')
+            if repo is None or not _else_of_witness(repo, origin, call_):
+                continue  # the exemption holds only while the write is excluded whenever that call reported a change
         if reason.startswith('ROLLBACK:'):
             fq_, _, reason = reason[9:].partition('|')
             from .r_rings import rollback_holds
@@ -172,6 +233,7 @@ def run_protocol(ck, repo, rule='B3', only_entries=None, only_dims=None, contain
     P = Protocol(repo, container)
     P.is8_free = dict(IS8_FREE)
     P.keep_exempt = lambda entry_q, o: exempt(entry_q, o, repo, getattr(P, 'active_keep_flags', None))
+    P.track_stale_reads = True
     cls = P.container
     per_entry = {}
     own = {}
@@ -269,4 +331,22 @@ def run_protocol(ck, repo, rule='B3', only_entries=None, only_dims=None, contain
         ck.bad(rule, key, f'{fq}: a fresh molecule escapes ({", ".join(f"{k}@{l}" for k, l in sorted(ex)[:3])}) after `{origin[2]}` '
                           f'(line {origin[1]}) although {DIM_TEXT[dim]}',
                file=repo.func(func_fq).file, line=origin[1], func=fq, construct=origin[2])
+    # stale reads: a cached value of the receiver consulted while a raw write it depends on is still unflushed and the key was not dropped since
+    if only_dims is None or 'FLUSH' in only_dims:
+        seen_sr = set()
+        for entry_fq, func_fq, attr, line, cats, origin in P.stale_reads:
+            eq = entry_fq.split(':')[1]
+            fq = func_fq.split(':')[1]
+            if only_entries is not None and eq not in only_entries:
+                continue
+            k = (fq, attr)
+            if k in seen_sr:
+                continue
+            seen_sr.add(k)
+            ck.bad(rule, f'{fq}|stale-read|{attr}', f'{fq} reads the cached `self.{attr}` (line {line}) after the raw write `{origin[2]}` (line {origin[1]}, {"/".join(cats)}) '
+                                                    f'without a flush or an explicit drop of that key in between: if the value was cached before the write (e.g. str(mol) was taken '
+                                                    f'earlier) the method decides on stale data, otherwise on fresh data -- cached and uncached calls differ',
+                   file=repo.func(func_fq).file, line=line, func=fq, construct=f'self.{attr}')
+        if not seen_sr:
+            ck.ok(rule, 'stale-reads', f'no cached value is read between a raw write it depends on and the next flush / drop ({len(P.cached_read_sets())} cached properties typed)')
     return P
